@@ -56,7 +56,7 @@ CFG = {
         "SV.Props.C16.parse_anchor_name_kernel_eq_scalar", "SV.Props.C16.parse_anchor_name_eq_scalar",
         "SV.Props.C16.classify_yaml_chars_eq_spec", "SV.Props.C16.classify_sse2_is_low_half",
         "SV.Props.C16.kernels_level_independent", "SV.Props.C16.clamp_total",
-        "SV.Props.C16.lanes_generated_eq",
+        "SV.Props.C16.lanes_generated_eq", "SV.Props.C16.plain_scalar_skip_source_pinned",
     ],
     "trusted_base": [
         "C16: lane semantics of _mm{,256}_cmpeq_epi8 / _or_si* / _movemask_epi8, u32::trailing_zeros, `!mask`, "
@@ -105,5 +105,10 @@ EXTRACT = {
         ("yaml_block_nl_sse2", _X86, "find_block_scalar_end_sse2", {"inputs": ["chunk"], "outputs": ["nl_mask#0"]}),
         ("yaml_block_sp_sse2", _X86, "find_block_scalar_end_sse2", {"inputs": ["next_chunk"], "outputs": ["space_mask"]}),
         ("yaml_anchor_avx2", _X86, "parse_anchor_name_avx2", {"inputs": ["chunk"], "outputs": ["definite_mask", "colon_mask"]}),
+        # not lane code (u32 mask arithmetic over the classifier's masks): source text pinned, see
+        # Props/C16.lean `plain_scalar_skip_source_pinned`
+        ("yaml_skip_unquoted", "src/yaml/parser.rs", "skip_unquoted_simd",
+         {"inputs": [], "outputs": [], "pins": ["terminators", "first_pos"]}),
+        ("yaml_plain_terminators", _X86, "plain_scalar_terminators", {"inputs": [], "outputs": [], "pins": ["terminators"]}),
     ],
 }
